@@ -7,7 +7,7 @@ from typing import Dict, List, Optional, Set
 from ..catalogue import Catalogue
 from ..model import AnalysisError, Func, Program, norm
 from ..report import Collector
-from .common import Refs, require_func, walk_no_nested
+from .common import Refs, regions_where, require_func, walk_no_nested
 
 EXPLANATION = (
     "C04 quantifies over the values of arbitrary terms and is NOT decided as a whole. Decided are three clauses whose truth is in the "
@@ -392,16 +392,12 @@ def _ground_index_siblings(prog: Program, col: Collector, refs: Refs, cat: Catal
             return None
 
         found = {}
-        for node in walk_no_nested(f.node):
-            if isinstance(node, ast.If):
-                k = kind(node.test)
-                if k is None:
-                    continue
-                v = k[1]
-                for st in node.body:
-                    if isinstance(st, ast.Assign) and len(st.targets) == 1 and isinstance(st.targets[0], ast.Name) \
-                            and any(isinstance(x, ast.Attribute) and x.attr == "data" and isinstance(x.value, ast.Name) and x.value.id == v for x in ast.walk(st.value)):
-                        found.setdefault((v, st.targets[0].id), {})[k[0]] = (st, node)
+        for node, k, region in regions_where(f.module, f.node, kind):
+            v = k[1]
+            for st in region:
+                if isinstance(st, ast.Assign) and len(st.targets) == 1 and isinstance(st.targets[0], ast.Name) \
+                        and any(isinstance(x, ast.Attribute) and x.attr == "data" and isinstance(x.value, ast.Name) and x.value.id == v for x in ast.walk(st.value)):
+                    found.setdefault((v, st.targets[0].id), {}).setdefault(k[0], (st, node))
         for (v, tgt), d in found.items():
             if "Number" in d and "Tensor" in d:
                 n += 1
@@ -544,17 +540,16 @@ def _slice_components(prog: Program, col: Collector, refs: Refs, cat: Catalogue)
     for f in prog.funcs.values():
         if f.name != "eager_subs" or f.cls is None:
             continue
-        for node in walk_no_nested(f.node):
-            if not isinstance(node, ast.If):
-                continue
-            t = node.test
-            if not (isinstance(t, ast.Call) and isinstance(t.func, ast.Name) and t.func.id == "isinstance" and len(t.args) == 2 and isinstance(t.args[0], ast.Name)
-                    and (refs.resolve(t.args[1]) if isinstance(t.args[1], (ast.Name, ast.Attribute)) else None) == "funsor.terms.Slice"):
-                continue
-            v = t.args[0].id
+        def is_slice_test(t):
+            if isinstance(t, ast.Call) and isinstance(t.func, ast.Name) and t.func.id == "isinstance" and len(t.args) == 2 and isinstance(t.args[0], ast.Name) \
+                    and (refs.resolve(t.args[1]) if isinstance(t.args[1], (ast.Name, ast.Attribute)) else None) == "funsor.terms.Slice":
+                return t.args[0].id
+            return None
+
+        for node, v, region in regions_where(f.module, f.node, is_slice_test):
             comps = set()
             whole = False
-            for st in node.body:
+            for st in region:
                 for x in ast.walk(st):
                     if isinstance(x, ast.Attribute) and isinstance(x.value, ast.Attribute) and x.value.attr == "slice" and isinstance(x.value.value, ast.Name) and x.value.value.id == v:
                         comps.add(x.attr)
